@@ -147,11 +147,11 @@ def run(ctx, report: Report) -> None:
             r2.violation(f'{lp.func} loop-bound', mod.where(lp.node),
                          f'token loop in {lp.func}: the loop bound {lp.bound} is modified inside the loop')
         # the receivers of the match calls must be the token table
-        for var, call in lp.match_calls:
+        for var, call, holder in lp.match_calls:
             recv = call.func.value
             ok = False
             if isinstance(recv, ast.Name):
-                for anc in ast.walk(fn):
+                for anc in ast.walk(holder):
                     if isinstance(anc, ast.For) and isinstance(anc.target, ast.Name) and anc.target.id == recv.id \
                             and unparse(anc.iter) in ('self.css_tokens', 'cls.css_tokens', 'CSSParser.css_tokens'):
                         ok = True
@@ -196,38 +196,40 @@ def run(ctx, report: Report) -> None:
             if rt is None or not tf.is_pattern(rt):
                 continue
             recv = f.value
-            resolved = None
-            cands = [recv.body, recv.orelse] if isinstance(recv, ast.IfExp) else [recv]
-            oks = []
-            for c in cands:
+            fn_q = mod.enclosing_function(call)
+            fnode = mod.functions.get(fn_q) if fn_q else None
+
+            def resolve(c, depth=0):
+                """Name the inventoried regex(es) the receiver expression can denote, or None."""
+                if isinstance(c, ast.IfExp):
+                    x, y = resolve(c.body, depth), resolve(c.orelse, depth)
+                    return f'{x} | {y}' if x and y else None
                 if isinstance(c, ast.Name) and c.id in mod_regex_names.get(mn, ()):
-                    oks.append(f'{mn}.{c.id}')
-                elif isinstance(c, ast.Attribute) and unparse(c) in (inst_attrs | pattern_class_attrs):
-                    oks.append(unparse(c))
-                elif isinstance(c, ast.Name):
-                    # local bound to IR pattern fields or to a value of a constant dict of module regexes
-                    fn_q = mod.enclosing_function(call)
-                    fnode = mod.functions.get(fn_q) if fn_q else None
-                    src_ok = False
-                    if fnode is not None:
-                        for st in ast.walk(fnode):
-                            if isinstance(st, ast.Assign) and any(isinstance(t, ast.Name) and t.id == c.id
-                                                                   for t in st.targets):
-                                vs = [st.value.body, st.value.orelse] if isinstance(st.value, ast.IfExp) else [st.value]
-                                if all(isinstance(v, ast.Attribute) and v.attr in ir_pattern_fields for v in vs):
-                                    src_ok = True
-                            if isinstance(st, ast.For) and isinstance(st.target, ast.Tuple) \
-                                    and any(isinstance(e, ast.Name) and e.id == c.id for e in st.target.elts) \
-                                    and isinstance(st.iter, ast.Call) and isinstance(st.iter.func, ast.Attribute) \
-                                    and st.iter.func.attr == 'items' and isinstance(st.iter.func.value, ast.Name):
-                                dn = mod.tree and inv.folder.env_nodes[mn].get(st.iter.func.value.id)
-                                if isinstance(dn, ast.Dict) and all(
-                                        isinstance(v, ast.Name) and v.id in mod_regex_names.get(mn, ()) for v in dn.values):
-                                    src_ok = True
-                    if src_ok:
-                        oks.append(f'local {c.id}')
-            if len(oks) == len(cands):
-                resolved = ' | '.join(oks)
+                    return f'{mn}.{c.id}'
+                if isinstance(c, ast.Attribute) and unparse(c) in (inst_attrs | pattern_class_attrs):
+                    return unparse(c)
+                if isinstance(c, ast.Attribute) and c.attr in ir_pattern_fields and depth > 0:
+                    return f'IR field .{c.attr}'
+                if isinstance(c, ast.Name) and fnode is not None and depth < 3:
+                    # a local: every definition in the enclosing function must resolve
+                    defs = []
+                    for st in ast.walk(fnode):
+                        if isinstance(st, ast.Assign) and any(isinstance(t, ast.Name) and t.id == c.id for t in st.targets):
+                            defs.append(resolve(st.value, depth + 1))
+                        elif isinstance(st, ast.AnnAssign) and isinstance(st.target, ast.Name) and st.target.id == c.id \
+                                and st.value is not None:
+                            defs.append(resolve(st.value, depth + 1))
+                        elif isinstance(st, ast.For) and isinstance(st.target, ast.Tuple) \
+                                and any(isinstance(e, ast.Name) and e.id == c.id for e in st.target.elts) \
+                                and isinstance(st.iter, ast.Call) and isinstance(st.iter.func, ast.Attribute) \
+                                and st.iter.func.attr == 'items' and isinstance(st.iter.func.value, ast.Name):
+                            dn = inv.folder.env_nodes[mn].get(st.iter.func.value.id)
+                            defs.append('values of ' + st.iter.func.value.id if isinstance(dn, ast.Dict) and all(
+                                isinstance(v, ast.Name) and v.id in mod_regex_names.get(mn, ()) for v in dn.values) else None)
+                    if defs and all(defs):
+                        return f'local {c.id} = ' + ' / '.join(sorted(set(defs)))
+                return None
+            resolved = resolve(recv)
             r3.instance({'site': f'{mod.where(call)} {unparse(f)[:60]}', 'resolved_to': resolved}, key=mod.where(call))
             r3.obligation(resolved is not None)
             if resolved is None:
